@@ -24,6 +24,20 @@
 //   coherence    mscohere in [0, 1 + 1e-12] for random pairs, scaled copies, filtered copies, independent noise;
 //                |mscohere - 1| <= 1e-9 at every frequency for y = c x (broadband x, >= 2 segments)
 //   overloads    welch(x, winlen[, noverlap, nfft]), welch(x, win), mscohere(x, y, winlen | win) equal the explicit call bit for bit
+//   round 2 (value-pattern classes, see the section "round 2" below):
+//   power-sum    Power: sum_k pxx[k] = nfft * mean_seg( sum_t |x w|^2 ) / (sum w)^2 (the same Parseval identity, other compensation)
+//   definition   welch = the long-double evaluation of its definition in every bin (1e-11 of the maximum; for the dynamic-range
+//                signals also relative to the bin itself as far as the conditioning of the bin allows) on signals with silent / quiet
+//                stretches (exact zeros of both signs, denormals, 1e-170 .. 1e-8) covering one, several, all but one, the first / last,
+//                every segment: the average runs over ALL segments; rectangular no-overlap: sum(pxx)/nfft = mean square of the record
+//   coh-def      mscohere = |sum X conj Y|^2 / (sum |X|^2 sum |Y|^2) evaluated in long double, bin by bin, tolerance from the
+//                conditioning of the bin; exactly 1 (1e-9) at EVERY bin for y = +-2^k x and for a single segment, whatever the level
+//                of the bin (spectra spanning > 300 dB); scale classes 1e-150 .. 1e150 for x and y separately; bins where a spectrum
+//                is exactly zero: NaN (what the code returns, pinned by CORR) or a value in [0, 1], never anything else
+//   scale        welch with signal / window at 1e-300 .. 1e150: relative oracles; powers of two bit for bit; overflow classes CORR only
+//   histories    a rejected call (bad nfft, noverlap >= winlen, short signal, size mismatch) changes no later result (bit for bit)
+//   aliasing     mscohere(x, x), welch(x, x), mscohere(x, y, x), x = welch(x).pxx; results from temporaries = results from named operands
+//   long/prime   single records of 2^16 .. 393216 samples after the short ones, prime lengths > 46340, nfft up to 2^17
 // CORR: tags wR wC wRd wCd (pxx), fR fC (frequency axes), coh cohd — replayed by Model/Spectrum.lean through dspdriver_c13,
 //   including the guard / boundary classes outside the property's domain (non-power-of-two nfft, noverlap >= winlen, negative
 //   noverlap, signal shorter than the window, window longer than nfft, nfft 1/2/4, all-zero window, size mismatch).
@@ -63,13 +77,19 @@ static arr_real make_win(int fam, int n, vh::Rng& r) {
     }
 }
 
-// a window is usable for the property's clauses when its coefficients are finite and it has weight
+// a window is usable for the property's clauses when its coefficients are finite and it has weight (relative to its own
+// largest coefficient: the estimate does not depend on the absolute scale of the window) and its squares stay in range
 static bool win_ok(const arr_real& w) {
-    LD s = 0, s2 = 0;
+    LD m = 0;
     for (int i = 0; i < w.size(); ++i) {
         if (!std::isfinite(w[i])) return false;
-        s += w[i];
-        s2 += (LD)w[i] * w[i];
+        m = std::max(m, fabsl((LD)w[i]));
+    }
+    if (!(m >= 1e-140L && m <= 1e140L)) return false;
+    LD s = 0, s2 = 0;
+    for (int i = 0; i < w.size(); ++i) {
+        s += w[i] / m;
+        s2 += ((LD)w[i] / m) * ((LD)w[i] / m);
     }
     return w.size() > 0 && s > 1e-3L && s2 > 1e-6L;
 }
@@ -179,19 +199,19 @@ static std::vector<LD> fold_one_sided(const std::vector<LD>& P) {
     return q;
 }
 
-// nfft * mean_seg(sum_t |x w|^2) / (w.w), time domain (needs winlen <= nfft)
+// nfft * mean_seg(sum_t |x w|^2) / (w.w)   (density)   or   / (sum w)^2   (power), time domain (needs winlen <= nfft)
 template<class T>
-static LD ref_power_sum(const base_array<T>& x, const arr_real& win, int nov, int nfft) {
+static LD ref_power_sum(const base_array<T>& x, const arr_real& win, int nov, int nfft, bool psd = true) {
     const int N = x.size(), L = win.size(), stride = L - nov, nseg = seg_count(N, L, nov);
-    LD s2 = 0;
-    for (int i = 0; i < L; ++i) s2 += (LD)win[i] * win[i];
+    LD s = 0, s2 = 0;
+    for (int i = 0; i < L; ++i) { s += win[i]; s2 += (LD)win[i] * win[i]; }
     LD acc = 0;
     for (int g = 0; g < nseg; ++g) {
         LD e = 0;
         for (int t = 0; t < L; ++t) e += abs2L(x[g * stride + t]) * ((LD)win[t] * win[t]);
         acc += e;
     }
-    return (LD)nfft * (acc / nseg) / s2;
+    return (LD)nfft * (acc / nseg) / (psd ? s2 : s * s);
 }
 
 // ------------------------------------------------------------------------------------------------ protocol helpers
@@ -286,22 +306,25 @@ static bool check_welch(const base_array<T>& x, const arr_real& win, int nov, in
             seen[slot] = 1;
         }
     }
-    // power conservation (density scaling)
-    if (psd && L <= nfft && N >= L) {
+    // power conservation: density scaling (the property's clause, keys *-psd-sum) and, by the same Parseval argument with the
+    // other window compensation, power scaling (keys *-power-sum)
+    if (L <= nfft && N >= L) {
         LD s = 0;
         for (int k = 0; k < want; ++k) s += pxx[k];
-        const LD ref = ref_power_sum(x, win, nov, nfft);
+        const LD ref = ref_power_sum(x, win, nov, nfft, psd);
         const int nseg = seg_count(N, L, nov);
         const LD tol = ((LD)nseg + L + 16.0L * ilog2(nfft) + 16.0L) * EPS;
         const LD err = fabsl(s - ref);
-        if (ref > 0) g_max_sum_ratio = std::max(g_max_sum_ratio, err / (tol * ref));
-        out.stat("psd_sum_checks");
-        if (!(err <= tol * ref)) {
+        // (sums below 1e-290 — quiet stretches under a window zero — sit in the denormal range, where no relative accuracy exists)
+        if (ref > 1e-250L && psd) g_max_sum_ratio = std::max(g_max_sum_ratio, err / (tol * ref));
+        out.stat(psd ? "psd_sum_checks" : "power_sum_checks");
+        if (!(err <= tol * ref + 1e-290L)) {
             char b[160];
             std::snprintf(b, sizeof b, "%.17Lg", s);
             std::string js = add_field(ctx, "sum", b);
             std::snprintf(b, sizeof b, "%.17Lg", ref);
-            out.fail(cx ? "C13:complex-psd-sum" : "C13:real-psd-sum", add_field(add_field(js, "expected", b), "segments", std::to_string(nseg)));
+            out.fail(psd ? (cx ? "C13:complex-psd-sum" : "C13:real-psd-sum") : (cx ? "C13:complex-power-sum" : "C13:real-power-sum"),
+                     add_field(add_field(js, "expected", b), "segments", std::to_string(nseg)));
         }
     }
     return true;
@@ -901,6 +924,962 @@ static void guard_cases(vh::Rng& r) {
     }
 }
 
+// ================================================================================================ round 2: value-pattern classes
+// (a) signals with silent / quiet stretches, (b) coherence against its definition over a huge dynamic range, scale classes of every
+// numeric input, long single records after short ones, failed calls in the history, large prime lengths, aliasing, temporaries.
+
+// element-wise: the returned estimate equals the definition (long-double evaluation), |pxx[k] - P[k]| <= 1e-11 max(P);
+// with `perbin` also relative to the bin itself, as far as the conditioning of the bin allows: a transform computed in double carries
+// an error of about eps sqrt(log2 nfft) |segment| in every bin, i.e. eps log2(nfft) sqrt(P[k] mean(P)) in the estimate
+static LD g_max_bin_ratio = 0;
+template<class T>
+static void check_definition(const base_array<T>& x, const arr_real& win, int nov, int nfft, bool psd, const arr_real& pxx, const std::string& ctx, bool perbin = false) {
+    std::vector<LD> P = ref_two_sided(x, win, nov, nfft, psd);
+    if (!Tr<T>::cx) P = fold_one_sided(P);
+    if ((int)P.size() != pxx.size()) return;
+    LD mx = 0, mn = 1e4000L, pbar = 0;
+    for (size_t k = 0; k < P.size(); ++k) { mx = std::max(mx, P[k]); pbar += P[k]; if (P[k] > 0) mn = std::min(mn, P[k]); }
+    pbar /= nfft;
+    out.stat("definition_checks");
+    for (size_t k = 0; k < P.size(); ++k) {
+        const LD dev = fabsl(P[k] - (LD)pxx[(int)k]);
+        if (mx > 1e-250L) g_max_ref_dev = std::max(g_max_ref_dev, dev / mx);
+        if (!(dev <= 1e-11L * mx + 1e-290L)) {
+            out.fail(Tr<T>::cx ? "C13:complex-welch-definition" : "C13:real-welch-definition",
+                     add_field(add_field(add_field(ctx, "bin", std::to_string(k)), "value", vh::jnum(pxx[(int)k])), "expected", jld(P[k])));
+            return;
+        }
+    }
+    if (!perbin || !(mx > 1e-250L)) return;
+    const LD u = 32.0L * EPS * ilog2(nfft);
+    const LD span = 10 * log10l(mx / mn);
+    out.stat(span < 100 ? "welch_span_lt_100dB" : span < 157 ? "welch_span_100_157dB" : span < 250 ? "welch_span_157_250dB" : "welch_span_gt_250dB");
+    for (size_t k = 0; k < P.size(); ++k) {
+        const LD tol = 1e-11L * P[k] + u * sqrtl(P[k] * pbar) + u * u * pbar;
+        if (!(tol <= 0.05L * P[k])) { out.stat("welch_bins_below_rounding_floor"); continue; }
+        const LD dev = fabsl(P[k] - (LD)pxx[(int)k]);
+        g_max_bin_ratio = std::max(g_max_bin_ratio, dev / tol);
+        out.stat("welch_bins_judged_relative");
+        if (!(dev <= tol)) {
+            out.fail(Tr<T>::cx ? "C13:complex-welch-definition-bin" : "C13:real-welch-definition-bin",
+                     add_field(add_field(add_field(add_field(ctx, "bin", std::to_string(k)), "value", vh::jnum(pxx[(int)k])), "expected", jld(P[k])), "bin_level_db", jld(10 * log10l(P[k] / mx))));
+            return;
+        }
+    }
+}
+
+// ------------------------------------------------------------------------------------------------ (a) silent stretches
+enum { QZ_POS = 0, QZ_NEG, QZ_MIX, QZ_DENORM, QZ_E310, QZ_E170, QZ_E120, QZ_E17, QZ_E8, NQZ };
+static const char* qz_name[NQZ] = {"+0", "-0", "mixed-zeros", "denormal-min", "denormal-1e-310", "1e-170", "1e-120", "1e-17", "1e-8"};
+static double quiet_value(vh::Rng& r, int q) {
+    switch (q) {
+    case QZ_POS: return 0.0;
+    case QZ_NEG: return -0.0;
+    case QZ_MIX: return r.coin() ? 0.0 : -0.0;
+    case QZ_DENORM: return (r.coin() ? 1.0 : -1.0) * 4.9406564584124654e-324 * r.range(1, 1000);
+    case QZ_E310: return 1e-310 * r.sym();
+    case QZ_E170: return 1e-170 * r.gauss();
+    case QZ_E120: return 1e-120 * r.gauss();
+    case QZ_E17: return 1e-17 * r.gauss();
+    default: return 1e-8 * r.gauss();
+    }
+}
+static void set_quiet(vh::Rng& r, real_t& v, int q) { v = quiet_value(r, q); }
+static void set_quiet(vh::Rng& r, cmplx_t& v, int q) { v.re = quiet_value(r, q); v.im = quiet_value(r, q); }
+template<class T>
+static void quiet_range(vh::Rng& r, base_array<T>& x, long long a, long long b, int q) {
+    a = std::max(0LL, a);
+    b = std::min<long long>(x.size(), b);
+    for (long long t = a; t < b; ++t) set_quiet(r, x[(int)t], q);
+}
+static bool is_zero_energy(real_t v) { return v * v == 0; }
+static bool is_zero_energy(cmplx_t v) { return v.re * v.re + v.im * v.im == 0; }
+static void set_one(real_t& v) { v = 1.0; }
+static void set_one(cmplx_t& v) { v.re = 0.6; v.im = -0.8; }
+
+enum { SP_ONE = 0, SP_FIRST, SP_LAST, SP_RANGE, SP_ALLBUTONE, SP_PADTAIL, SP_LEAD, SP_GATED, SP_IMPULSE, SP_NEARMISS, SP_ALL, NSP };
+static const char* sp_name[NSP] = {"one-segment", "first-segment", "last-segment", "segment-range", "all-but-one-window", "zero-padded-tail", "leading-silence",
+                                   "gated-bursts", "single-sample", "near-miss", "whole-record"};
+template<class T>
+static void apply_silence(vh::Rng& r, base_array<T>& x, int L, int stride, int nseg, int pat, int q) {
+    const long long N = x.size();
+    auto at = [&](int g) { return (long long)g * stride; };
+    switch (pat) {
+    case SP_ONE: { const int g = r.range(0, nseg - 1); quiet_range(r, x, at(g), at(g) + L, q); break; }
+    case SP_FIRST: quiet_range(r, x, 0, L + (r.coin() ? r.range(0, stride - 1) : 0), q); break;
+    case SP_LAST: quiet_range(r, x, at(nseg - 1) - (r.coin() ? r.range(0, stride - 1) : 0), N, q); break;
+    case SP_RANGE: { const int g1 = r.range(0, nseg - 1), g2 = r.range(g1, nseg - 1); quiet_range(r, x, at(g1), at(g2) + L, q); break; }
+    case SP_ALLBUTONE: { const int g = r.range(0, nseg - 1); quiet_range(r, x, 0, at(g), q); quiet_range(r, x, at(g) + L, N, q); break; }
+    case SP_PADTAIL: quiet_range(r, x, r.range(1, (int)N - 1), N, q); break;
+    case SP_LEAD: quiet_range(r, x, 0, r.range(1, (int)N - 1), q); break;
+    case SP_GATED: {
+        bool on = r.coin();
+        for (long long t = 0; t < N; on = !on) {
+            const int len = r.range(1, 3 * L);
+            if (!on) quiet_range(r, x, t, t + len, q);
+            t += len;
+        }
+        break;
+    }
+    case SP_IMPULSE: {
+        const int keep = r.range(0, (int)N - 1);
+        T v = x[keep];
+        if (is_zero_energy(v)) set_one(v);
+        quiet_range(r, x, 0, N, q);
+        x[keep] = v;
+        break;
+    }
+    case SP_NEARMISS: {
+        const int g = r.range(0, nseg - 1);
+        if (stride > 1 && r.coin()) quiet_range(r, x, at(g) + 1, at(g) + 1 + L, q);   // a window length of silence, one sample off the grid
+        else quiet_range(r, x, at(g), at(g) + L - 1, q);                              // on the grid, one sample short
+        break;
+    }
+    default: quiet_range(r, x, 0, N, q); break;
+    }
+}
+template<class T>
+static int count_silent_segments(const base_array<T>& x, int L, int stride, int nseg) {
+    int n = 0;
+    for (int g = 0; g < nseg; ++g) {
+        bool sil = true;
+        for (int t = 0; t < L && sil; ++t) sil = is_zero_energy(x[g * stride + t]);
+        n += sil;
+    }
+    return n;
+}
+
+// quiet non-zero values (denormals, 1e-170) in EVERY segment: all squares underflow, the estimate is 0 where the exact value is 1e-340 —
+// outside a relative oracle.  Such a record is turned into one of exact zeros (both signs), which is judged: the estimate must be 0.
+template<class T>
+static int settle_all_quiet(vh::Rng& r, base_array<T>& x, int L, int stride, int nseg, int q) {
+    const int nsil = count_silent_segments(x, L, stride, nseg);
+    if (nsil == nseg && q > QZ_MIX)
+        for (int t = 0; t < x.size(); ++t)
+            if (is_zero_energy(x[t])) set_quiet(r, x[t], q % 3);
+    return nsil;
+}
+
+template<class T>
+static void run_silent(vh::Rng& r, const Cfg& c, bool psd, bool corr, int pat, int q, bool defcheck) {
+    if (pat == SP_ALL && q > QZ_MIX) q = q % 3;   // a wholly quiet record of non-zeros underflows: outside the relative oracle
+    arr_real win = make_win(c.fam, c.L, r);
+    const long long id = g_case++;
+    std::string ctx = ctx_json("silent-stretch", Tr<T>::cx, c.nfft, c.fam, c.L, c.nov, c.N, c.sig, psd, id);
+    ctx = add_field(add_field(ctx, "pattern", std::string("\"") + sp_name[pat] + "\""), "quiet_value", std::string("\"") + qz_name[q] + "\"");
+    base_array<T> x;
+    if constexpr (Tr<T>::cx) x = gen_cmplx(r, c.N, c.sig);
+    else x = gen_real(r, c.N, c.sig);
+    const int stride = c.L - c.nov, nseg = seg_count(c.N, c.L, c.nov);
+    apply_silence(r, x, c.L, stride, nseg, pat, q);
+    const int nsil = settle_all_quiet(r, x, c.L, stride, nseg, q);
+    ctx = add_field(add_field(ctx, "segments", std::to_string(nseg)), "zero_energy_segments", std::to_string(nsil));
+    WelchResult res{arr_real(), arr_real()};
+    const bool ok = check_welch(x, win, c.nov, c.nfft, psd, ctx, corr, &res);
+    out.stat("silent_cases");
+    out.stat(std::string("silent_pattern_") + sp_name[pat]);
+    out.stat(std::string("silent_value_") + qz_name[q]);
+    out.stat(nsil == 0 ? "silent_cases_no_zero_energy_segment" : nsil == nseg ? "silent_cases_every_segment_zero_energy" : nsil == nseg - 1 ? "silent_cases_all_but_one_segment_zero_energy" : "silent_cases_some_segments_zero_energy");
+    out.stat("zero_energy_segments_total", nsil);
+    if (ok && win_ok(win) && defcheck && c.L <= c.nfft) check_definition(x, win, c.nov, c.nfft, psd, res.pxx, ctx);
+}
+
+static void silent_sweep(vh::Rng& r) {
+    std::vector<int> nffts;
+    for (int n = 8; n <= 4096; n *= 2) nffts.push_back(n);
+    int which = 0;
+    // every overlap 0..winlen-1 for small windows, both input types, both scalings; patterns and quiet values rotate
+    for (int nfft : {8, 16, 32}) {
+        for (int L = 1; L <= nfft; L += (g_thorough ? 1 : (L < 6 ? 1 : 5))) {
+            for (int nov = 0; nov < L; ++nov) {
+                const int fam = (L < 4) ? (r.coin() ? RECT : RANDPOS) : r.range(0, NFAM - 1);
+                const int stride = L - nov;
+                const int N = L + stride * r.range(1, 7) + (r.coin() ? r.range(0, stride - 1) : 0);
+                Cfg c{nfft, fam, L, nov, N, r.range(0, NSIGK - 1)};
+                const bool psd = (nov + L) % 2 == 0;
+                const bool corr = (which % (g_thorough ? 2 : 3)) == 0;
+                run_silent<real_t>(r, c, psd, corr, which % NSP, (which / NSP + which) % NQZ, true);
+                run_silent<cmplx_t>(r, c, !psd, corr, (which + 5) % NSP, (which / NSP + which + 4) % NQZ, true);
+                ++which;
+            }
+        }
+    }
+    // all nfft x all families x window lengths x sampled overlaps
+    const int reps = g_thorough ? 6 : 1;
+    for (int rep = 0; rep < reps; ++rep)
+        for (int nfft : nffts)
+            for (int fam = 0; fam < NFAM; ++fam) {
+                std::vector<int> Ls = {nfft, nfft - 1, nfft / 2 + 1, r.range(4, nfft)};
+                if (!g_thorough) Ls = {(fam % 2) ? nfft : nfft - 1, r.range(4, nfft)};
+                for (int L : Ls) {
+                    const int nov = pick_overlap(r, L, which);
+                    const int stride = L - nov;
+                    const long long maxseg = std::max<long long>(2, std::min<long long>((100000 - L) / stride + 1, (g_thorough ? 1200000LL : 300000LL) / nfft));
+                    const int nseg = (int)std::min<long long>(maxseg, (which % 4 == 0) ? 2 + r.range(0, 2) : 2 + (long long)std::pow((double)maxseg, r.unit()));
+                    int N = L + (nseg - 1) * stride + (r.coin() ? r.range(0, stride - 1) : 0);
+                    N = std::min(N, 100000);
+                    Cfg c{nfft, fam, L, nov, N, r.range(0, NSIGK - 1)};
+                    const bool corr = (long long)seg_count(N, L, nov) * nfft <= 100000 && N <= 5000 && (which % (g_thorough ? 6 : 3) == 0);
+                    const int pat = which % NSP, q = (which / NSP + which) % NQZ;
+                    if (which % 2) run_silent<cmplx_t>(r, c, r.coin(), corr, pat, q, true);
+                    else run_silent<real_t>(r, c, r.coin(), corr, pat, q, true);
+                    ++which;
+                }
+            }
+    // Parseval against the mean square of the whole record: rectangular window spanning the transform, no overlap, N = nseg * nfft:
+    // sum(pxx) / nfft = (1/N) sum_t |x[t]|^2, silent stretches included
+    for (int nfft : nffts) {
+        for (int v = 0; v < (g_thorough ? 6 : 2); ++v) {
+            const int nseg = r.range(2, std::max(2, std::min(60, 60000 / nfft)));
+            const int N = nseg * nfft;
+            const int pat = which % NSP;
+            int q = (which / NSP + which) % NQZ;
+            if (pat == SP_ALL && q > QZ_MIX) q %= 3;
+            ++which;
+            arr_real win = ones(nfft);
+            auto one = [&](auto x) {
+                typedef typename std::decay<decltype(x[0])>::type T;
+                apply_silence(r, x, nfft, nfft, nseg, pat, q);
+                settle_all_quiet(r, x, nfft, nfft, nseg, q);
+                std::string ctx = ctx_json("parseval-mean-square", Tr<T>::cx, nfft, RECT, nfft, 0, N, -1, true, g_case++);
+                ctx = add_field(add_field(ctx, "pattern", std::string("\"") + sp_name[pat] + "\""), "quiet_value", std::string("\"") + qz_name[q] + "\"");
+                WelchResult res{arr_real(), arr_real()};
+                if (!check_welch(x, win, 0, nfft, true, ctx, false, &res)) return;
+                LD ms = 0, s = 0;
+                for (int t = 0; t < N; ++t) ms += abs2L(x[t]);
+                ms /= N;
+                for (int k = 0; k < res.pxx.size(); ++k) s += res.pxx[k];
+                s /= nfft;
+                out.stat("parseval_mean_square_checks");
+                if (!(fabsl(s - ms) <= ((LD)nseg + nfft + 16.0L * ilog2(nfft) + 16.0L) * EPS * ms))
+                    out.fail(Tr<T>::cx ? "C13:complex-parseval-mean-square" : "C13:real-parseval-mean-square", add_field(add_field(ctx, "sum_over_nfft", jld(s)), "mean_square", jld(ms)));
+            };
+            if (v % 2) one(gen_cmplx(r, N, r.range(0, NSIGK - 1)));
+            else one(gen_real(r, N, r.range(0, NSIGK - 1)));
+        }
+    }
+}
+
+// ------------------------------------------------------------------------------------------------ (b) coherence against its definition
+struct CohRef {
+    std::vector<LD> pxx, pyy, cre, cim;
+    LD ex = 0, ey = 0;   // sum over the segments of the energy of the windowed segment
+};
+static CohRef coh_ref(const arr_real& x, const arr_real& y, const arr_real& win, int nov, int nfft) {
+    const int N = x.size(), L = win.size(), stride = L - nov, nseg = seg_count(N, L, nov), m = nfft / 2 + 1;
+    CohRef R;
+    R.pxx.assign(m, 0);
+    R.pyy.assign(m, 0);
+    R.cre.assign(m, 0);
+    R.cim.assign(m, 0);
+    std::vector<CL> a(nfft), b(nfft);
+    for (int g = 0; g < nseg; ++g) {
+        for (int t = 0; t < nfft; ++t) {
+            if (t < L) {
+                a[t] = CL{(LD)x[g * stride + t] * win[t], 0};
+                b[t] = CL{(LD)y[g * stride + t] * win[t], 0};
+                R.ex += a[t].re * a[t].re;
+                R.ey += b[t].re * b[t].re;
+            } else a[t] = b[t] = CL{0, 0};
+        }
+        fft_ld(a);
+        fft_ld(b);
+        for (int k = 0; k < m; ++k) {
+            R.pxx[k] += a[k].re * a[k].re + a[k].im * a[k].im;
+            R.pyy[k] += b[k].re * b[k].re + b[k].im * b[k].im;
+            R.cre[k] += a[k].re * b[k].re + a[k].im * b[k].im;   // X conj(Y)
+            R.cim[k] += a[k].im * b[k].re - a[k].re * b[k].im;
+        }
+    }
+    return R;
+}
+
+static LD g_max_cohdef_ratio = 0, g_max_cohone_dev = 0;
+struct CohFlags {
+    bool exact_copy = false;   // y = +-2^k x sample for sample: every transform of y is the scaled transform of x bit for bit
+    bool copy = false;         // y = fl(c x)
+    bool zero_x = false, zero_y = false;   // the signal is exactly zero over the whole record
+};
+// returns false if the call threw
+static bool coh_check(const arr_real& x, const arr_real& y, const arr_real& win, int nov, int nfft, const std::string& ctx, const CohFlags& fl, bool corr, bool refcheck = true) {
+    const int N = x.size(), L = win.size();
+    vh::set_current("C13:mscohere-crash", ctx);
+    vh::watch(600);
+    arr_real c;
+    try {
+        c = mscohere(x, y, win, nov, nfft);
+    } catch (const std::exception& e) {
+        vh::unwatch();
+        vh::clear_current();
+        out.fail("C13:mscohere-throws", add_field(ctx, "error", std::string("\"") + e.what() + "\""));
+        return false;
+    }
+    vh::unwatch();
+    vh::clear_current();
+    ++out.n_oracle;
+    out.stat("cohdef_cases");
+    if (corr) out.corr(std::string("coh ") + std::to_string(nov) + " " + std::to_string(nfft) + " " + vh::hxs(x) + " " + vh::hxs(y) + " " + vh::hxs(win), vh::hxs(c));
+    const int m = nfft / 2 + 1;
+    if (c.size() != m) {
+        out.fail("C13:mscohere-size", add_field(ctx, "size", std::to_string(c.size())));
+        return true;
+    }
+    if (!win_ok(win) || L > nfft || !refcheck) return true;
+    const int nseg = seg_count(N, L, nov);
+    out.stat(nseg == 1 ? "cohdef_segments_1" : nseg <= 8 ? "cohdef_segments_2_8" : "cohdef_segments_gt_8");
+    const CohRef R = coh_ref(x, y, win, nov, nfft);
+    const LD rtol = 1e-12L + 8.0L * nseg * EPS;
+    LD mxden = 0, mnden = 1e4000L;
+    for (int k = 0; k < m; ++k) {
+        const LD den = R.pxx[k] * R.pyy[k];
+        if (den > 0) { mxden = std::max(mxden, den); mnden = std::min(mnden, den); }
+    }
+    bool failed_def = false, failed_one = false, failed_rng = false, failed_zero = false;
+    for (int k = 0; k < m; ++k) {
+        const LD den = R.pxx[k] * R.pyy[k];
+        const double v = c[k];
+        if (!(den > 0)) {
+            // one spectrum is exactly zero at this bin: the definition is 0/0.  The unchanged code returns NaN there (pinned bit for bit by
+            // CORR); what no implementation may return is a value outside [0, 1] or an infinity
+            out.stat("cohdef_bins_zero_spectrum");
+            if (std::isnan(v)) out.stat("cohdef_bins_zero_spectrum_nan");
+            else if (!(v >= 0 && v <= 1 + rtol) && !failed_zero) {
+                failed_zero = true;
+                out.fail("C13:mscohere-zero-spectrum", add_field(add_field(ctx, "bin", std::to_string(k)), "value", vh::jnum(v)));
+            }
+            continue;
+        }
+        const LD cref = (R.cre[k] * R.cre[k] + R.cim[k] * R.cim[k]) / den;
+        // conditioning of the bin: a transform computed in double carries an error of about eps * sqrt(log2 nfft) * |segment| in every bin
+        const LD cond = sqrtl(R.ex / R.pxx[k]) + sqrtl(R.ey / R.pyy[k]);
+        const LD tol = 1e-10L + 16.0L * EPS * ilog2(nfft) * cond;
+        const bool below = !(tol <= 0.05L);   // more than ~245 dB below the energy of the segments: rounding decides what the code sees
+        const LD dev = fabsl((LD)v - cref);
+        if (below && std::isnan(v)) {
+            // the computed spectrum may be exactly zero here (e.g. the alternating sum of a signal without Nyquist component): 0/0
+            out.stat("cohdef_bins_below_rounding_floor_nan");
+            continue;
+        }
+        if ((!(v >= 0) || !(v <= 1 + rtol)) && !failed_rng) {
+            failed_rng = true;
+            out.fail("C13:mscohere-range", add_field(add_field(add_field(ctx, "bin", std::to_string(k)), "value", vh::jnum(v)), "definition", jld(cref)));
+        }
+        if (nseg == 1 || fl.exact_copy) {
+            // |X conj(Y)|^2 / (|X|^2 |Y|^2) of the SAME computed transforms (one segment), or Y = c X bit for bit: 1 whatever the conditioning
+            g_max_cohone_dev = std::max(g_max_cohone_dev, fabsl((LD)v - 1));
+            out.stat("cohdef_bins_must_be_one");
+            if (!(fabsl((LD)v - 1) <= 1e-9L) && !failed_one) {
+                failed_one = true;
+                out.fail(nseg == 1 ? "C13:mscohere-single-segment" : "C13:mscohere-scaled-copy",
+                         add_field(add_field(add_field(ctx, "bin", std::to_string(k)), "value", vh::jnum(v)), "bin_level_db_of_PxxPyy", jld(10 * log10l(den / mxden))));
+            }
+            continue;
+        }
+        if (!below) {
+            g_max_cohdef_ratio = std::max(g_max_cohdef_ratio, dev / tol);
+            out.stat("cohdef_bins_judged");
+            if (!(dev <= tol) && !failed_def) {
+                failed_def = true;
+                out.fail("C13:mscohere-definition", add_field(add_field(add_field(add_field(ctx, "bin", std::to_string(k)), "value", vh::jnum(v)), "definition", jld(cref)), "tolerance", jld(tol)));
+            }
+            if (fl.copy && tol + fabsl(cref - 1) <= 5e-10L) {
+                out.stat("cohdef_bins_copy_must_be_one");
+                if (!(fabsl((LD)v - 1) <= 1e-9L) && !failed_one) {
+                    failed_one = true;
+                    out.fail("C13:mscohere-scaled-copy", add_field(add_field(ctx, "bin", std::to_string(k)), "value", vh::jnum(v)));
+                }
+            }
+        } else out.stat("cohdef_bins_below_rounding_floor");
+    }
+    if (mxden > 0) {
+        const LD span = 10 * log10l(mxden / mnden);   // dynamic range of Pxx * Pyy over the bins, dB
+        out.stat(span < 100 ? "cohdef_span_lt_100dB" : span < 157 ? "cohdef_span_100_157dB" : span < 300 ? "cohdef_span_157_300dB" : span < 450 ? "cohdef_span_300_450dB" : "cohdef_span_gt_450dB");
+    }
+    return true;
+}
+
+// signals whose spectrum spans a huge dynamic range
+enum { HD_TONE_DITHER = 0, HD_BINTONE_DITHER, HD_MULTISINE, HD_IIR, HD_QUANT16, HD_IMPULSE_DITHER, HD_WHITE, NHD };
+static const char* hd_name[NHD] = {"tone+dither", "bin-centred-tone+dither", "decaying-multisine", "cascaded-one-pole-noise", "16-bit-quantised-tone", "impulses+dither", "white"};
+static arr_real gen_hdr(vh::Rng& r, int N, int nfft, int kind) {
+    arr_real x(N);
+    if (kind == HD_MULTISINE && nfft > 256) kind = HD_IIR;
+    switch (kind) {
+    case HD_TONE_DITHER:
+    case HD_BINTONE_DITHER: {
+        const int ntone = r.range(1, 3);
+        const double d = std::pow(10.0, -(3 + 12 * r.unit()));
+        std::vector<LD> f(ntone), ph(ntone);
+        for (int i = 0; i < ntone; ++i) {
+            f[i] = (kind == HD_BINTONE_DITHER) ? (LD)r.range(1, nfft / 2 - 1) / nfft : 0.02L + 0.46L * (LD)r.unit();
+            ph[i] = 2 * PI_L * (LD)r.unit();
+        }
+        for (int t = 0; t < N; ++t) {
+            LD a = 0;
+            for (int i = 0; i < ntone; ++i) { LD p = f[i] * t; p -= floorl(p); a += cosl(2 * PI_L * p + ph[i]); }
+            x[t] = (double)a + d * r.gauss();
+        }
+        break;
+    }
+    case HD_MULTISINE: {
+        const int h = nfft / 2;
+        const double D = 100 + 220 * r.unit();   // dB between the first and the last line
+        std::vector<LD> amp(h), ph(h), per(nfft, 0);
+        for (int k = 1; k < h; ++k) { amp[k] = powl(10.0L, -(LD)D * k / h / 20); ph[k] = 2 * PI_L * (LD)r.unit(); }
+        for (int t = 0; t < nfft; ++t)
+            for (int k = 1; k < h; ++k) per[t] += amp[k] * cosl(2 * PI_L * ((long long)k * t % nfft) / nfft + ph[k]);
+        for (int t = 0; t < N; ++t) x[t] = (double)per[t % nfft];
+        break;
+    }
+    case HD_IIR: {
+        const int stages = r.range(2, 8);
+        const double pole = (r.coin() ? 1 : -1) * (0.9 + 0.095 * r.unit());
+        std::vector<double> st(stages, 0.0);
+        for (int t = -400; t < N; ++t) {
+            double v = r.gauss();
+            for (int s = 0; s < stages; ++s) { st[s] = pole * st[s] + (1 - std::fabs(pole)) * v; v = st[s]; }
+            if (t >= 0) x[t] = v;
+        }
+        break;
+    }
+    case HD_QUANT16: {
+        const double f0 = 0.01 + 0.48 * r.unit(), A = 1000 + 31000 * r.unit();
+        for (int t = 0; t < N; ++t) x[t] = std::round(A * std::sin(2 * M_PI * f0 * t)) / 32768.0;
+        break;
+    }
+    case HD_IMPULSE_DITHER: {
+        const double d = std::pow(10.0, -(3 + 12 * r.unit()));
+        for (int t = 0; t < N; ++t) x[t] = d * r.gauss() + ((r.next() % 61 == 0) ? 1.0 : 0.0);
+        break;
+    }
+    default:
+        for (int t = 0; t < N; ++t) x[t] = r.gauss();
+    }
+    return x;
+}
+// windows for the dynamic-range cases: low-sidelobe families at strong shape parameters next to the ordinary ones
+static arr_real make_win_hdr(vh::Rng& r, int L, int& fam, std::string& desc) {
+    char b[64];
+    switch (r.range(0, 6)) {
+    case 0: fam = BHARRIS; desc = "blackmanharris"; return window::blackmanharris(L, r.coin());
+    case 1: { const double beta = 12 + 28 * r.unit(); fam = KAISER; std::snprintf(b, sizeof b, "kaiser(%.3f)", beta); desc = b; return window::kaiser(L, beta); }
+    case 2: { const double al = 4 + 4 * r.unit(); fam = GAUSS; std::snprintf(b, sizeof b, "gauss(%.3f)", al); desc = b; return window::gauss(L, al, r.coin()); }
+    case 3: fam = RECT; desc = "rect"; return ones(L);
+    case 4: fam = HANN; desc = "hann-periodic"; return window::hann(L, false);
+    default: fam = r.range(0, NFAM - 1); desc = fam_name[fam]; return make_win(fam, L, r);
+    }
+}
+
+enum { YK_POW2 = 0, YK_SCALED, YK_FIR, YK_IIR, YK_INDEP, YK_NOISY, YK_SELF_SHIFT, NYK };
+static const char* yk_name[NYK] = {"copy-times-power-of-two", "scaled-copy", "strongly-coloured-fir-copy", "iir-filtered-copy", "independent", "copy+tiny-noise", "delayed-copy"};
+static arr_real make_partner(vh::Rng& r, const arr_real& x, int nfft, int kind, CohFlags& fl, std::string& desc) {
+    const int N = x.size();
+    arr_real y(N);
+    char b[96];
+    switch (kind) {
+    case YK_POW2: {
+        const int e = r.range(-40, 40);
+        const double c = (r.coin() ? 1 : -1) * std::ldexp(1.0, e);
+        for (int t = 0; t < N; ++t) y[t] = c * x[t];
+        fl.exact_copy = true;
+        std::snprintf(b, sizeof b, "c=%g", c);
+        break;
+    }
+    case YK_SCALED: {
+        const double c = (r.coin() ? 1 : -1) * std::pow(10.0, 6 * r.unit() - 3);
+        for (int t = 0; t < N; ++t) y[t] = c * x[t];
+        fl.copy = true;
+        std::snprintf(b, sizeof b, "c=%.17g", c);
+        break;
+    }
+    case YK_FIR: {
+        // (1 + s z^-1)^p: a zero of multiplicity p at Nyquist (s = 1) or DC (s = -1), 6 p dB per octave
+        const int p = r.range(1, 12);
+        const double sgn = r.coin() ? 1 : -1;
+        std::vector<double> h(1, 1.0);
+        for (int i = 0; i < p; ++i) {
+            std::vector<double> g(h.size() + 1, 0.0);
+            for (size_t j = 0; j < h.size(); ++j) { g[j] += h[j]; g[j + 1] += sgn * h[j]; }
+            h = g;
+        }
+        for (int t = 0; t < N; ++t) {
+            double a = 0;
+            for (size_t k = 0; k < h.size() && (int)k <= t; ++k) a += h[k] * x[t - (int)k];
+            y[t] = a;
+        }
+        std::snprintf(b, sizeof b, "(1%+gz)^%d", sgn, p);
+        break;
+    }
+    case YK_IIR: {
+        const int stages = r.range(1, 6);
+        const double pole = (r.coin() ? 1 : -1) * (0.8 + 0.19 * r.unit());
+        std::vector<double> st(stages, 0.0);
+        for (int t = 0; t < N; ++t) {
+            double v = x[t];
+            for (int s = 0; s < stages; ++s) { st[s] = pole * st[s] + v; v = st[s]; }
+            y[t] = v;
+        }
+        std::snprintf(b, sizeof b, "pole=%.4f^%d", pole, stages);
+        break;
+    }
+    case YK_INDEP: {
+        const int hk = r.range(0, NHD - 1);
+        y = gen_hdr(r, N, nfft, hk);
+        std::snprintf(b, sizeof b, "%s", hd_name[hk]);
+        break;
+    }
+    case YK_NOISY: {
+        const double s = std::pow(10.0, -(2 + 10 * r.unit()));
+        for (int t = 0; t < N; ++t) y[t] = x[t] + s * r.gauss();
+        std::snprintf(b, sizeof b, "noise=%.3g", s);
+        break;
+    }
+    default: {
+        const int d = r.range(1, 5);
+        for (int t = 0; t < N; ++t) y[t] = (t >= d) ? x[t - d] : 0.0;
+        std::snprintf(b, sizeof b, "delay=%d", d);
+    }
+    }
+    desc = std::string(yk_name[kind]) + " " + b;
+    return y;
+}
+
+static std::string coh_ctx(const char* what, int nfft, int fam, int L, int nov, int N, const std::string& wdesc, const std::string& xdesc, const std::string& ydesc) {
+    std::string ctx = ctx_json(what, false, nfft, fam, L, nov, N, -1, true, g_case++);
+    ctx = add_field(ctx, "window_detail", "\"" + wdesc + "\"");
+    ctx = add_field(ctx, "x", "\"" + xdesc + "\"");
+    return add_field(ctx, "y", "\"" + ydesc + "\"");
+}
+
+static void coherence_definition(vh::Rng& r) {
+    std::vector<int> nffts;
+    for (int n = 8; n <= 4096; n *= 2) nffts.push_back(n);
+    int which = 0;
+    const int reps = g_thorough ? 4 : 1;
+    // dynamic range x partner x window x segment count
+    for (int rep = 0; rep < reps; ++rep)
+        for (int nfft : nffts)
+            for (int hk = 0; hk < NHD; ++hk)
+                for (int yk = 0; yk < NYK; ++yk) {
+                    if (!g_thorough && (hk + yk + ilog2(nfft) + (int)g_seed) % 3 && !(yk == YK_POW2 && hk <= HD_BINTONE_DITHER)) { ++which; continue; }
+                    int L = (which % 3 == 0) ? nfft : r.range(std::max(4, nfft / 2), nfft);
+                    if (hk == HD_MULTISINE || hk == HD_BINTONE_DITHER) L = (which % 2) ? nfft : L;
+                    int fam;
+                    std::string wdesc, ydesc;
+                    arr_real win = make_win_hdr(r, L, fam, wdesc);
+                    const int nov = pick_overlap(r, L, which);
+                    const int stride = L - nov;
+                    const long long maxseg = std::max<long long>(1, std::min<long long>((60000 - L) / stride + 1, (g_thorough ? 400000LL : 120000LL) / nfft));
+                    int nseg = (which % 5 == 0) ? 1 : (int)std::min<long long>(maxseg, 2 + r.range(0, 30));
+                    const int N = L + (nseg - 1) * stride + (r.coin() ? r.range(0, stride - 1) : 0);
+                    arr_real x = gen_hdr(r, N, nfft, hk);
+                    CohFlags fl;
+                    arr_real y = make_partner(r, x, nfft, yk, fl, ydesc);
+                    const bool corr = N <= 4000 && (long long)nseg * nfft <= 60000 && (which % (g_thorough ? 8 : 4) == 0);
+                    coh_check(x, y, win, nov, nfft, coh_ctx("mscohere-definition", nfft, fam, L, nov, N, wdesc, hd_name[hk], ydesc), fl, corr);
+                    out.stat(std::string("cohdef_x_") + hd_name[hk]);
+                    out.stat(std::string("cohdef_y_") + yk_name[yk]);
+                    ++which;
+                }
+    // scale classes, each input separately (the coherence does not depend on either scale); the pairs whose squares leave the double
+    // range (both 1e100, both 1e-100 ...) go through CORR only: there the code returns inf / NaN / 0 and the model must reproduce it
+    {
+        static const double sc[] = {1e-100, 1e-17, 1e-8, 1.0, 1e8, 1e17, 1e100, 0x1p-300, 0x1p300, 1e-150, 1e150};
+        const int nsc = sizeof sc / sizeof sc[0];
+        for (int i = 0; i < nsc; ++i)
+            for (int j = 0; j < nsc; ++j) {
+                if (!g_thorough && ((i * nsc + j + (int)g_seed) % 4) && !(i == 0 && j == 6) && !(i == 6 && j == 3)) continue;
+                const int nfft = nffts[r.range(0, 6)];
+                const int L = r.coin() ? nfft : r.range(std::max(4, nfft / 2), nfft);
+                int fam;
+                std::string wdesc, ydesc;
+                arr_real win = make_win_hdr(r, L, fam, wdesc);
+                const int nov = pick_overlap(r, L, which++);
+                const int stride = L - nov;
+                const int nseg = r.range(1, 12);
+                const int N = L + (nseg - 1) * stride;
+                const int hk = r.range(0, NHD - 1), yk = r.range(0, NYK - 1);
+                arr_real x = gen_hdr(r, N, nfft, hk);
+                CohFlags fl;
+                arr_real y = make_partner(r, x, nfft, yk, fl, ydesc);
+                fl.exact_copy = fl.exact_copy && std::frexp(sc[i], &fam) == 0.5 && std::frexp(sc[j], &fam) == 0.5;
+                if (!fl.exact_copy && yk == YK_POW2) fl.copy = true;
+                fam = -1;
+                for (int t = 0; t < N; ++t) { x[t] *= sc[i]; y[t] *= sc[j]; }
+                const double lx = std::log10(sc[i]), ly = std::log10(sc[j]);
+                const bool in_range = std::fabs(lx) <= 130 && std::fabs(ly) <= 130 && std::fabs(lx + ly) <= 110;
+                char b[64];
+                std::snprintf(b, sizeof b, " scaled by %g", sc[i]);
+                std::string xd = std::string(hd_name[hk]) + b;
+                std::snprintf(b, sizeof b, " scaled by %g", sc[j]);
+                coh_check(x, y, win, nov, nfft, coh_ctx("mscohere-scale-classes", nfft, fam, L, nov, N, wdesc, xd, ydesc + b), fl, N <= 1500 && (!in_range || (i + j) % 3 == 0), in_range);
+                out.stat(in_range ? "cohdef_scale_pairs_judged" : "cohdef_scale_pairs_corr_only");
+            }
+    }
+    // exactly zero spectra and silent stretches: x == 0, y == 0, both, one signal silent where the other is not, alternating-sign signals
+    // whose transform is exactly zero away from Nyquist
+    for (int v = 0; v < (g_thorough ? 60 : 14); ++v) {
+        const int nfft = nffts[r.range(0, 6)];
+        const int L = (v % 7 == 6) ? nfft : r.range(std::max(4, nfft / 2), nfft);
+        int fam = (v % 7 == 6) ? RECT : r.range(0, NFAM - 1);
+        arr_real win = make_win(fam, L, r);
+        const int nov = (v % 7 == 6) ? ((v % 2) ? 0 : L / 2) : pick_overlap(r, L, which++);
+        const int stride = L - nov, nseg = r.range(2, 12), N = L + (nseg - 1) * stride + r.range(0, stride - 1);
+        arr_real x = gen_real(r, N, r.range(0, NSIGK - 1)), y = gen_real(r, N, r.range(0, NSIGK - 1));
+        CohFlags fl;
+        std::string xd = "random", yd = "random";
+        const int q = v % 3;   // exact zeros of both signs
+        switch (v % 7) {
+        case 0: quiet_range(r, x, 0, N, q); fl.zero_x = true; xd = "all-zero"; break;
+        case 1: quiet_range(r, y, 0, N, q); fl.zero_y = true; yd = "all-zero"; break;
+        case 2: quiet_range(r, x, 0, N, q); quiet_range(r, y, 0, N, (q + 1) % 3); fl.zero_x = fl.zero_y = true; xd = yd = "all-zero"; break;
+        case 3: { const int qq = r.range(0, NQZ - 1); apply_silence(r, x, L, stride, nseg, r.range(0, NSP - 2), qq); settle_all_quiet(r, x, L, stride, nseg, qq); xd = "silent stretches"; break; }
+        case 4: {
+            const int q1 = r.range(0, NQZ - 1), q2 = r.range(0, NQZ - 1);
+            apply_silence(r, x, L, stride, nseg, r.range(0, NSP - 2), q1);
+            settle_all_quiet(r, x, L, stride, nseg, q1);
+            apply_silence(r, y, L, stride, nseg, r.range(0, NSP - 2), q2);
+            settle_all_quiet(r, y, L, stride, nseg, q2);
+            xd = yd = "silent stretches";
+            break;
+        }
+        case 5: { y = x; apply_silence(r, y, L, stride, nseg, r.range(0, SP_GATED), r.range(0, 2)); yd = "copy of x with silent stretches"; break; }
+        default: for (int t = 0; t < N; ++t) x[t] = (t % 2) ? -1.0 : 1.0; xd = "alternating +-1 (Nyquist only)"; break;
+        }
+        coh_check(x, y, win, nov, nfft, coh_ctx("mscohere-zero-spectra", nfft, fam, L, nov, N, fam_name[fam], xd, yd), fl, N <= 3000);
+        out.stat("cohdef_zero_and_silent_cases");
+    }
+}
+
+// welch of signals whose spectrum spans a huge dynamic range: every bin equals the definition relative to ITSELF (a floor, a gate or a
+// clean-up of small bins is not part of the definition), sums and sizes as everywhere
+static void welch_dynamic_range(vh::Rng& r) {
+    std::vector<int> nffts;
+    for (int n = 8; n <= 4096; n *= 2) nffts.push_back(n);
+    int which = 0;
+    for (int rep = 0; rep < (g_thorough ? 4 : 1); ++rep)
+        for (int nfft : nffts)
+            for (int hk = 0; hk < NHD; ++hk) {
+                ++which;
+                if (!g_thorough && (which + (int)g_seed) % 2) continue;
+                int L = (which % 3 == 0) ? nfft : r.range(std::max(4, nfft / 2), nfft);
+                if (hk == HD_MULTISINE || hk == HD_BINTONE_DITHER) L = (which % 2) ? nfft : L;
+                int fam;
+                std::string wdesc;
+                arr_real win = make_win_hdr(r, L, fam, wdesc);
+                const int nov = pick_overlap(r, L, which);
+                const int stride = L - nov;
+                const long long maxseg = std::max<long long>(1, std::min<long long>((60000 - L) / stride + 1, (g_thorough ? 400000LL : 120000LL) / nfft));
+                const int nseg = (int)std::min<long long>(maxseg, 1 + r.range(0, 30));
+                const int N = L + (nseg - 1) * stride + (r.coin() ? r.range(0, stride - 1) : 0);
+                const bool psd = r.coin();
+                const bool corr = N <= 3000 && which % (g_thorough ? 8 : 4) == 0;
+                auto run = [&](auto x) {
+                    typedef typename std::decay<decltype(x[0])>::type T;
+                    std::string ctx = ctx_json("dynamic-range", Tr<T>::cx, nfft, fam, L, nov, N, -1, psd, g_case++);
+                    ctx = add_field(add_field(ctx, "window_detail", "\"" + wdesc + "\""), "x", std::string("\"") + hd_name[hk] + "\"");
+                    WelchResult res{arr_real(), arr_real()};
+                    if (check_welch(x, win, nov, nfft, psd, ctx, corr, &res) && win_ok(win)) check_definition(x, win, nov, nfft, psd, res.pxx, ctx, true);
+                    out.stat("welch_dynamic_range_cases");
+                };
+                arr_real a = gen_hdr(r, N, nfft, hk);
+                if (which % 4 < 2) run(a);
+                else {
+                    arr_real b = gen_hdr(r, N, nfft, r.coin() ? hk : r.range(0, NHD - 1));
+                    arr_cmplx z(N);
+                    for (int t = 0; t < N; ++t) { z[t].re = a[t]; z[t].im = b[t]; }
+                    run(z);
+                }
+            }
+}
+
+// ------------------------------------------------------------------------------------------------ scale classes of signal and window (welch)
+static bool is_pow2_double(double v) { int e; return std::frexp(std::fabs(v), &e) == 0.5; }
+template<class T>
+static void welch_scale_case(vh::Rng& r, int nfft, int fam, int L, int nov, int N, double sx, double sw, bool psd, bool corr) {
+    arr_real win0 = make_win(fam, L, r);
+    base_array<T> x0;
+    if constexpr (Tr<T>::cx) x0 = gen_cmplx(r, N, 0);
+    else x0 = gen_real(r, N, 0);
+    // a few special elements: negative zero, a denormal, exact powers of two
+    if (N >= 4) { set_quiet(r, x0[r.range(0, N - 1)], QZ_NEG); set_quiet(r, x0[r.range(0, N - 1)], QZ_DENORM); }
+    base_array<T> x = x0 * sx;
+    arr_real win = win0 * sw;
+    std::string ctx = ctx_json("scale-classes", Tr<T>::cx, nfft, fam, L, nov, N, 0, psd, g_case++);
+    ctx = add_field(add_field(ctx, "signal_scale", vh::jnum(sx)), "window_scale", vh::jnum(sw));
+    const double l = std::log10(sx) + std::log10(sw);
+    const bool in_range = std::fabs(l) <= 125 && std::fabs(std::log10(sw)) <= 135 && std::fabs(std::log10(sx)) <= 140;
+    out.stat(in_range ? "scale_cases_judged" : "scale_cases_corr_only");
+    if (!in_range) {
+        // squares overflow / underflow: outside the property's domain, pinned by the model only
+        const SpectrumType type = psd ? SpectrumType::Psd : SpectrumType::Power;
+        emit_welch(x, win, nov, nfft, psd, guarded("C13:guard-crash", ctx, [&] { return welch(x, win, nov, nfft, type).pxx; }));
+        return;
+    }
+    WelchResult res{arr_real(), arr_real()};
+    if (!check_welch(x, win, nov, nfft, psd, ctx, corr, &res)) return;
+    if (!win_ok(win)) return;
+    if (L <= nfft) check_definition(x, win, nov, nfft, psd, res.pxx, ctx);
+    // scaling by powers of two is exact: the window scale cancels bit for bit, the signal scale comes out squared bit for bit
+    if (is_pow2_double(sx) && is_pow2_double(sw)) {
+        WelchResult base = welch(x0, win0, nov, nfft, psd ? SpectrumType::Psd : SpectrumType::Power);
+        bool same = base.pxx.size() == res.pxx.size();
+        for (int k = 0; same && k < base.pxx.size(); ++k) {
+            const double want = base.pxx[k] * sx * sx;
+            same = (want == res.pxx[k]) || (std::fabs(want) < 1e-290);   // (denormal element of x: its products may round differently far below)
+        }
+        out.stat("scale_equivariance_checks");
+        if (!same) out.fail(Tr<T>::cx ? "C13:complex-scale-equivariance" : "C13:real-scale-equivariance", ctx);
+    }
+}
+static void welch_scale_classes(vh::Rng& r) {
+    static const double sc[] = {1e-100, 1e-17, 1e-8, 1.0, 1e8, 1e17, 1e100, 0x1p-200, 0x1p-30, 0x1p40, 0x1p200, 1e-300, 1e150, 1e-160};
+    const int nsc = sizeof sc / sizeof sc[0];
+    int which = 0;
+    for (int i = 0; i < nsc; ++i)
+        for (int j = 0; j < nsc; ++j) {
+            ++which;
+            if (!g_thorough && ((which + (int)g_seed) % 3) && !(sc[i] == 1e100 && sc[j] == 1.0) && !(sc[i] == 1.0 && sc[j] == 1e-100)) continue;
+            const int nfft = 8 << r.range(0, 6);
+            const int L = r.coin() ? nfft : r.range(std::max(2, nfft / 4), nfft);
+            const int nov = pick_overlap(r, L, which);
+            const int stride = L - nov, nseg = r.range(1, 9), N = L + (nseg - 1) * stride + r.range(0, stride - 1);
+            const int fam = L < 4 ? RANDPOS : r.range(0, NFAM - 1);
+            const bool corr = N <= 1200 && which % 2 == 0;
+            if (which % 2) welch_scale_case<real_t>(r, nfft, fam, L, nov, N, sc[i], sc[j], r.coin(), corr);
+            else welch_scale_case<cmplx_t>(r, nfft, fam, L, nov, N, sc[i], sc[j], r.coin(), corr);
+        }
+    // finite magnitudes near the top of the range whose squared transform is still finite: |x| ~ 1e150, winlen 8, unit window
+    for (int v = 0; v < (g_thorough ? 12 : 3); ++v) {
+        if (v % 2) welch_scale_case<real_t>(r, 8 << (v % 3), RECT, 8, v % 8, 8 + (8 - v % 8) * r.range(0, 5), 1e150, 1.0, v % 4 < 2, true);
+        else welch_scale_case<cmplx_t>(r, 8 << (v % 3), RECT, 8, v % 8, 8 + (8 - v % 8) * r.range(0, 5), 1e150, 1.0, v % 4 < 2, true);
+    }
+}
+
+// ------------------------------------------------------------------------------------------------ long single records, large primes
+static bool is_prime_ll(long long n) {
+    if (n < 2) return false;
+    for (long long d = 2; d * d <= n; ++d) if (n % d == 0) return false;
+    return true;
+}
+static int next_prime(int n) { while (!is_prime_ll(n)) ++n; return n; }
+
+template<class T>
+static void long_case(vh::Rng& r, const char* what, int nfft, int fam, int L, int nov, int N, bool psd, bool defcheck) {
+    arr_real win = make_win(fam, L, r);
+    base_array<T> x;
+    const int sig = r.range(0, NSIGK - 1);
+    if constexpr (Tr<T>::cx) x = gen_cmplx(r, N, sig);
+    else x = gen_real(r, N, sig);
+    const std::string ctx = ctx_json(what, Tr<T>::cx, nfft, fam, L, nov, N, sig, psd, g_case++);
+    WelchResult res{arr_real(), arr_real()};
+    if (!check_welch(x, win, nov, nfft, psd, ctx, false, &res)) return;
+    if (defcheck && win_ok(win) && L <= nfft) check_definition(x, win, nov, nfft, psd, res.pxx, ctx);
+    out.stat(std::string(what) + "_cases");
+}
+static void long_and_prime(vh::Rng& r) {
+    // single records above 2^16 / 2^17 samples arriving after the short ones of the sweeps above; exact multiples of 49152 and 65536
+    std::vector<int> Ns = {65536, 65537, 98304, 131071, 131072, 131073, 147456, 196608, 262144, 262145, 294912, 393216, next_prime(200000), 3 * 65536 + 1};
+    const int cnt = g_thorough ? (int)Ns.size() : 4;
+    for (int i = 0; i < cnt; ++i) {
+        const int N = g_thorough ? Ns[i] : Ns[(i * 5 + (int)g_seed * 3 + (i == 0 ? 4 : 0)) % Ns.size()];
+        const int nfft = 64 << r.range(0, 5);
+        const int L = r.coin() ? nfft : r.range(nfft / 2, nfft);
+        const int nov = r.coin() ? L / 2 : r.range(0, L / 2);
+        const int fam = r.range(0, NFAM - 1);
+        if (i % 2) long_case<real_t>(r, "long-record", nfft, fam, L, nov, N, i % 4 < 2, true);
+        else long_case<cmplx_t>(r, "long-record", nfft, fam, L, nov, N, i % 4 < 2, true);
+        // the coherence of a long pair: a filtered copy plus noise, against the definition
+        if (i % 2 == 0 || g_thorough) {
+            arr_real x = gen_real(r, N, 0), y(N);
+            for (int t = 0; t < N; ++t) y[t] = x[t] + 0.5 * (t ? x[t - 1] : 0.0) + 0.3 * r.gauss();
+            arr_real win = make_win(fam, L, r);
+            CohFlags fl;
+            coh_check(x, y, win, nov, nfft, coh_ctx("long-record-coherence", nfft, fam, L, nov, N, fam_name[fam], "gauss", "fir copy + noise"), fl, false);
+            out.stat("long-record-coherence_cases");
+        }
+    }
+    // lengths with large prime factors (> 46340: k * k overflows a 32-bit int): prime signal length, prime window length, prime hop;
+    // transforms beyond the sweep limit (8192 .. 2^17)
+    struct P { int nfft, L, nov, N; };
+    const int p1 = next_prime(46341 + (int)(g_seed % 50) * 10), p2 = next_prime(65537 + (int)(g_seed % 20) * 4), p3 = next_prime(99990 - (int)(g_seed % 30) * 10);
+    std::vector<P> ps = {
+        {256, 200, 100, p1}, {1024, 1000, 0, p3}, {512, 509, 509 - 251, p2},
+        {65536, p1, 0, 2 * p1 + 17}, {65536, p1, p1 / 2, 2 * p1 + 1}, {131072, 65537, 1, 65537 + 2 * 65536},
+        {8192, 4099, 4099 - 4093, 4099 + 4093 * 5}, {16384, 16381, 8191, 16381 + 3 * 8190 + 7}, {32768, 32768, 16384, 32768 * 3},
+    };
+    const int np = g_thorough ? (int)ps.size() : 5;
+    for (int i = 0; i < np; ++i) {
+        const P& p = ps[g_thorough ? i : (i < 3 ? i : 3 + (i - 3 + (int)g_seed) % 6)];
+        const int fam = r.range(0, NFAM - 1);
+        if ((i + g_seed) % 2) long_case<real_t>(r, "prime-length", p.nfft, fam, p.L, p.nov, p.N, i % 3 != 0, true);
+        else long_case<cmplx_t>(r, "prime-length", p.nfft, fam, p.L, p.nov, p.N, i % 3 != 0, true);
+    }
+}
+
+// ------------------------------------------------------------------------------------------------ histories, aliasing, temporaries
+template<class F> static bool throws(F f) {
+    try { f(); } catch (const std::exception&) { return true; }
+    return false;
+}
+static void histories(vh::Rng& r) {
+    const int n = g_thorough ? 40 : 8;
+    for (int i = 0; i < n; ++i) {
+        const int nfft = 8 << r.range(0, 7);
+        const int L = r.coin() ? nfft : r.range(std::max(2, nfft / 2), nfft);
+        const int nov = pick_overlap(r, L, i);
+        const int stride = L - nov, nseg = r.range(1, 7), N = L + (nseg - 1) * stride + r.range(0, stride - 1);
+        const int fam = L < 4 ? RECT : r.range(0, NFAM - 1);
+        const bool psd = r.coin();
+        const SpectrumType type = psd ? SpectrumType::Psd : SpectrumType::Power;
+        arr_real win = make_win(fam, L, r), xr = gen_real(r, N, r.range(0, NSIGK - 1)), yr = gen_real(r, N, 0);
+        arr_cmplx xc = gen_cmplx(r, N, r.range(0, NSIGK - 1));
+        arr_real xshort = gen_real(r, std::max(0, L - 1 - r.range(0, L - 1)), 0), ylong = gen_real(r, N + 1 + r.range(0, 5), 0);
+        arr_cmplx cshort = gen_cmplx(r, xshort.size(), 0);
+        std::string ctx = ctx_json("failed-call-history", false, nfft, fam, L, nov, N, -1, psd, g_case++);
+        vh::set_current("C13:history-crash", ctx);
+        vh::watch(300);
+        try {
+            const WelchResult a0 = welch(xr, win, nov, nfft, type), c0 = welch(xc, win, nov, nfft, type);
+            const arr_real m0 = mscohere(xr, yr, win, nov, nfft);
+            int nthrown = 0, k = 0;
+            const int bad_nfft[] = {nfft + 1, nfft - 1, 3 * nfft / 2 + (nfft == 8 ? 1 : 0), 0, -nfft, 12, 100};
+            auto recheck = [&](const char* after) {
+                const WelchResult a1 = welch(xr, win, nov, nfft, type), c1 = welch(xc, win, nov, nfft, type);
+                const arr_real m1 = mscohere(xr, yr, win, nov, nfft);
+                out.stat("failed_call_rechecks");
+                if (!(same_bits(a0.pxx, a1.pxx) && same_bits(a0.f, a1.f) && same_bits(c0.pxx, c1.pxx) && same_bits(c0.f, c1.f) && same_bits(m0, m1)))
+                    out.fail("C13:failed-call-history", add_field(ctx, "after", std::string("\"") + after + "\""));
+            };
+            for (int bn : bad_nfft) {
+                if (bn > 0 && (bn & (bn - 1)) == 0) continue;
+                switch (k++ % 3) {
+                case 0: nthrown += throws([&] { welch(xr, win, nov, bn, type); }); break;
+                case 1: nthrown += throws([&] { welch(xc, win, nov, bn, type); }); break;
+                default: nthrown += throws([&] { mscohere(xr, yr, win, nov, bn); });
+                }
+                recheck("transform size not a power of two");
+            }
+            nthrown += throws([&] { welch(xr, win, L + r.range(0, 3), nfft, type); });
+            recheck("noverlap >= winlen (real)");
+            nthrown += throws([&] { welch(xc, win, L, nfft, type); });
+            recheck("noverlap >= winlen (complex)");
+            nthrown += throws([&] { mscohere(xr, yr, win, L + 5, nfft); });
+            recheck("noverlap >= winlen (mscohere)");
+            nthrown += throws([&] { welch(xshort, win, nov, nfft, type); });
+            recheck("signal shorter than the window (real)");
+            nthrown += throws([&] { welch(cshort, win, nov, nfft, type); });
+            recheck("signal shorter than the window (complex)");
+            nthrown += throws([&] { mscohere(xshort, xshort, win, nov, nfft); });
+            recheck("signals shorter than the window (mscohere)");
+            nthrown += throws([&] { mscohere(xr, ylong, win, nov, nfft); });
+            recheck("size mismatch (mscohere)");
+            nthrown += throws([&] { mscohere(ylong, yr, win, nov, nfft); });
+            recheck("size mismatch (mscohere, first longer)");
+            out.stat("failed_calls_thrown", nthrown);
+            ++out.n_oracle;
+        } catch (const std::exception& e) {
+            out.fail("C13:history-throws", add_field(ctx, "error", std::string("\"") + e.what() + "\""));
+        }
+        vh::unwatch();
+        vh::clear_current();
+    }
+}
+
+static bool same_bits_nan(const arr_real& a, const arr_real& b) {   // NaN payloads / signs are not part of the contract
+    if (a.size() != b.size()) return false;
+    for (int i = 0; i < a.size(); ++i) {
+        if (std::isnan(a[i]) && std::isnan(b[i])) continue;
+        if (std::memcmp(&a[i], &b[i], sizeof(double)) != 0) return false;
+    }
+    return true;
+}
+static void aliasing_and_temporaries(vh::Rng& r) {
+    const int n = g_thorough ? 40 : 8;
+    for (int i = 0; i < n; ++i) {
+        const int nfft = 8 << r.range(0, 7);
+        const int L = r.coin() ? nfft : r.range(std::max(2, nfft / 2), nfft);
+        const int nov = pick_overlap(r, L, i);
+        const int stride = L - nov, nseg = r.range(1, 7), N = L + (nseg - 1) * stride + r.range(0, stride - 1);
+        const int fam = L < 4 ? RECT : r.range(0, NFAM - 1);
+        const bool psd = r.coin();
+        const SpectrumType type = psd ? SpectrumType::Psd : SpectrumType::Power;
+        arr_real win = make_win(fam, L, r), xr = gen_real(r, N, r.range(0, NSIGK - 1)), yr = gen_real(r, N, 0);
+        if (i % 3 == 0) apply_silence(r, xr, L, stride, nseg, r.range(0, NSP - 2), r.range(0, 2));
+        arr_cmplx xc = gen_cmplx(r, N, r.range(0, NSIGK - 1));
+        std::string ctx = ctx_json("aliasing", false, nfft, fam, L, nov, N, -1, psd, g_case++);
+        vh::set_current("C13:aliasing-crash", ctx);
+        vh::watch(300);
+        try {
+            std::string bad;
+            // the same object for both signals of the coherence == an equal but distinct copy; and it is 1 (or 0/0) at every bin
+            {
+                const arr_real xcopy = xr;
+                const arr_real a = mscohere(xr, xr, win, nov, nfft), b = mscohere(xr, xcopy, win, nov, nfft);
+                if (!same_bits_nan(a, b)) bad += " mscohere(x,x)";
+                if (win_ok(win))
+                    for (int k = 0; k < a.size(); ++k)
+                        if (!std::isnan(a[k]) && !(std::fabs(a[k] - 1) <= 1e-9)) { bad += " mscohere(x,x)!=1"; break; }
+            }
+            // the window object is also a signal: welch(x, x) with the record as its own window (one segment); mscohere(x, y, x)
+            if (N <= nfft * 4) {
+                int nf = nfft;
+                while (nf < N) nf *= 2;
+                const arr_real wcopy = xr;
+                const WelchResult a = welch(xr, xr, 0, nf, type), b = welch(xr, wcopy, 0, nf, type);
+                if (!same_bits_nan(a.pxx, b.pxx)) bad += " welch(x,x)";
+                const arr_real c = mscohere(xr, yr, xr, 0, nf), d = mscohere(xr, yr, wcopy, 0, nf);
+                if (!same_bits_nan(c, d)) bad += " mscohere(x,y,x)";
+                const arr_real e = mscohere(yr, xr, xr, 0, nf), f = mscohere(yr, wcopy, wcopy, 0, nf);
+                if (!same_bits_nan(e, f)) bad += " mscohere(y,x,x)";
+            }
+            // the operand is also the destination
+            {
+                const WelchResult ref = welch(xr, win, nov, nfft, type);
+                arr_real z = xr;
+                z = welch(z, win, nov, nfft, type).pxx;
+                if (!same_bits(z, ref.pxx)) bad += " x=welch(x).pxx";
+                WelchResult w2 = ref;
+                const int l2 = std::min<int>(ref.pxx.size(), 8);
+                const WelchResult ref2 = welch(ref.pxx, ones(l2), 0, 8, type);
+                w2 = welch(w2.pxx, ones(l2), 0, 8, type);
+                if (!same_bits(w2.pxx, ref2.pxx) || !same_bits(w2.f, ref2.f)) bad += " r=welch(r.pxx)";
+                arr_real m = xr;
+                const arr_real mref = mscohere(xr, yr, win, nov, nfft);
+                m = mscohere(m, yr, win, nov, nfft);
+                if (!same_bits_nan(m, mref)) bad += " x=mscohere(x,y)";
+            }
+            // temporaries: rvalue operands, nested expressions, results bound to const& / iterated in place
+            {
+                const WelchResult ref = welch(xr, win, nov, nfft, type), refc = welch(xc, win, nov, nfft, type);
+                const arr_real& p1 = welch(xr * 1.0, win * 1.0, nov, nfft, type).pxx;
+                if (!same_bits(p1, ref.pxx)) bad += " welch(temporaries)";
+                const arr_real& p2 = welch(arr_cmplx(xc), arr_real(win), nov, nfft, type).pxx;
+                if (!same_bits(p2, refc.pxx)) bad += " welch(complex temporaries)";
+                int k = 0;
+                bool eq = true;
+                for (const real_t& v : welch(arr_real(xr), arr_real(win), nov, nfft, type).f) { eq = eq && (std::memcmp(&v, &ref.f[k], 8) == 0); ++k; }
+                if (!eq || k != ref.f.size()) bad += " range-for over welch(...).f";
+                const arr_real mref = mscohere(xr, yr, win, nov, nfft);
+                const arr_real& m1 = mscohere(xr + 0.0, yr * 1.0, arr_real(win), nov, nfft);
+                // x + 0.0 turns -0 into +0: only the sign of zero samples changes, the value of every product stays the same
+                if (!same_bits_nan(m1, mref)) bad += " mscohere(temporaries)";
+                if (L >= 4) {
+                    const WelchResult h1 = welch(arr_real(xr), window::hamming(L), nov, nfft, type), h2 = welch(xr, L, nov, nfft, type);
+                    if (!same_bits(h1.pxx, h2.pxx)) bad += " welch(x, hamming temporary)";
+                }
+            }
+            out.stat("aliasing_and_temporary_checks");
+            ++out.n_oracle;
+            if (!bad.empty()) out.fail("C13:aliasing-or-temporaries", add_field(ctx, "differs", "\"" + bad + "\""));
+        } catch (const std::exception& e) {
+            out.fail("C13:aliasing-throws", add_field(ctx, "error", std::string("\"") + e.what() + "\""));
+        }
+        vh::unwatch();
+        vh::clear_current();
+    }
+}
+
 static long long ppm(LD v) { return (long long)llroundl(std::min((LD)9e15, v * 1e6L)); }
 
 int main(int argc, char** argv) {
@@ -918,6 +1897,14 @@ int main(int argc, char** argv) {
     power_tones(r);
     tone_sweeps(r);
     coherence(r);
+    // round 2 (after the sweeps above: the long records arrive after short ones)
+    silent_sweep(r);
+    coherence_definition(r);
+    welch_dynamic_range(r);
+    welch_scale_classes(r);
+    histories(r);
+    aliasing_and_temporaries(r);
+    long_and_prime(r);
     out.stat("tones_judged_real", g_ts_real.judged);
     out.stat("tones_judged_complex", g_ts_cx.judged);
     out.stat("tones_complex_axis_known_finding", g_ts_cx.known_axis);
@@ -926,6 +1913,9 @@ int main(int argc, char** argv) {
     out.stat("max_real_power_tone_error_ppm_of_bound", ppm(g_max_rtone_ratio));
     out.stat("max_coherence_excess_over_1_x1e18", (long long)llroundl(std::max((LD)0, g_max_coh_excess) * 1e18L));
     out.stat("max_scaled_copy_deviation_x1e18", (long long)llroundl(g_max_coh_dev * 1e18L));
+    out.stat("max_coherence_definition_error_ppm_of_bound", ppm(g_max_cohdef_ratio));
+    out.stat("max_welch_bin_error_ppm_of_bound", ppm(g_max_bin_ratio));
+    out.stat("max_single_segment_or_exact_copy_deviation_x1e18", (long long)llroundl(std::min((LD)9.0L, g_max_cohone_dev) * 1e18L));
     out.stat("max_deviation_from_long_double_estimate_x1e18", (long long)llroundl(g_max_ref_dev * 1e18L));
     out.stat("distinct_nontrivial", out.n_cases + out.n_oracle);
     out.finish();
